@@ -83,4 +83,55 @@ def ctIsoSideOk (t : CT) (numFaces : Nat) (dc2v : Array Nat) : Bool :=
   decide (t.numCorners ≤ inv) && decide (t.numVertices ≤ inv) &&
   (List.range (3 * numFaces)).all fun d => dc2v[d]! != inv
 
+/-! ### isomorphism of table views / mesh data (`TVIso`, `MDIso` of DracoProofs/EbMDIso.lean), executable -/
+
+/-- the corner map recorded in `processed_connectivity_corners_` (the expression inside `ctIso`) -/
+def phiOf (processed : Array Nat) (d : Nat) : Nat :=
+  let c := processed[d / 3]!
+  if d % 3 == 0 then c else if d % 3 == 1 then Eb.nextC c else Eb.prevC c
+
+/-- a corner map extended by `inv ↦ inv` -/
+def extOf (φ : Nat → Nat) (c : Nat) : Nat := if c = inv then inv else φ c
+
+/-- candidate maps for the check: decoder vertex → encoder vertex, its inverse, and the inverse of the corner
+    map (arbitrary arrays as far as soundness is concerned: `tvIsoCheck` verifies what it needs about them) -/
+def buildMaps (d e : TView) (φ : Nat → Nat) : Array Nat × Array Nat × Array Nat := Id.run do
+  let mut psi := Array.replicate d.numVertices 0
+  let mut back := Array.replicate e.numVertices 0
+  let mut cback := Array.replicate (3 * e.numFaces) 0
+  for c in [0:3 * d.numFaces] do
+    cback := cback.setIfInBounds (φ c) c
+    match d.vertex c, e.vertex (φ c) with
+    | .ok v, .ok w =>
+      psi := psi.setIfInBounds v w
+      back := back.setIfInBounds w v
+    | _, _ => pure ()
+  pure (psi, back, cback)
+
+/-- every field of `TVIso d e φ (psi[·]!)`, corner by corner -/
+def tvIsoCheck (d e : TView) (φ : Nat → Nat) (psi back cback : Array Nat) : Bool :=
+  d.isAtt == e.isAtt &&
+  decide (3 * d.numFaces ≤ inv) && decide (3 * e.numFaces ≤ inv) && decide (d.c2v.size ≤ inv) && decide (e.c2v.size ≤ inv) &&
+  (List.range (3 * d.numFaces)).all fun c =>
+    decide (φ c < 3 * e.numFaces) && cback[φ c]! == c && φ (Eb.nextC c) == Eb.nextC (φ c) &&
+    (match d.opposite c with
+     | .ok o => (o == inv || decide (o < 3 * d.numFaces)) && resEq (e.opposite (φ c)) (.ok (extOf φ o))
+     | .error _ => false) &&
+    (match d.vertex c with
+     | .ok v => decide (v < d.numVertices) && resEq (e.vertex (φ c)) (.ok psi[v]!) && decide (psi[v]! < e.numVertices) &&
+         back[psi[v]!]! == v &&
+         (match d.isOnBoundary v, e.isOnBoundary psi[v]! with
+          | .ok b, .ok b' => b == b'
+          | _, _ => false)
+     | .error _ => false)
+
+/-- the remaining fields of `MDIso d e φ (psi[·]!)` -/
+def mdIsoCheck (d e : MeshData) (φ : Nat → Nat) (psi : Array Nat) : Bool :=
+  e.d2c.size == d.d2c.size &&
+  ((List.range d.d2c.size).all fun p => decide (d.d2c[p]! < 3 * d.t.numFaces) && e.d2c[p]! == φ d.d2c[p]!) &&
+  (List.range (3 * d.t.numFaces)).all fun c =>
+    match d.t.vertex c with
+    | .ok v => decide (v < d.v2d.size) && decide (psi[v]! < e.v2d.size) && d.v2d[v]! == e.v2d[psi[v]!]!
+    | .error _ => false
+
 end Draco.EbEnc
